@@ -74,5 +74,5 @@ func runC16(r *Runner, tier string, rng *Rng) {
 		}
 	}
 	r.RunCases(batch)
-	r.St.Rule = "the -race instrumented stress binary: 2..32 goroutines issue mixed INDEPENDENT calls (RecordArtifacts on trees with file and directory symlinks, InTotoRun, Metablock sign/dump/load/verify, Envelope set/sign/verify) on disjoint directories and distinct objects, GOMAXPROCS in {1,2,4,16,...}, with and without injected yields, several rounds; race-detector reports, fatal runtime errors (concurrent map writes), hangs and any difference to the same calls made sequentially are reported. Class = (goroutines, GOMAXPROCS, symlinks, yields)."
+	r.St.Rule = "the -race instrumented stress binary: 2..32 goroutines issue mixed INDEPENDENT calls (RecordArtifacts on trees with file and directory symlinks, InTotoRun, Metablock sign/dump/load/verify, Envelope set/sign/verify, full verification of an own supply chain, certificate-constraint checks on the failing path with decision and error text) on disjoint directories and distinct objects, GOMAXPROCS in {1,2,4,16,...}, with and without injected yields, several rounds; race-detector reports, fatal runtime errors (concurrent map writes), hangs and any difference to the same calls made sequentially are reported. Class = (goroutines, GOMAXPROCS, symlinks, yields)."
 }
